@@ -1683,9 +1683,9 @@ pub fn suite_text(ctx: &mut Ctx) {
                     format!("h{}\n", t).into_bytes()
                 }
             };
-            // mostly just above the 100-token switch; every eighth case far above it (any further size threshold of a
+            // mostly just above the 100-token switch; every fourth case far above it (any further size threshold of a
             // "trim the shared ends of LARGE texts first" step lies well below 10 000 tokens or is irrelevant in practice)
-            let n = if j % 8 == 3 { [4100, 4300, 8200, 9000][((j / 8) % 4) as usize] + rng.below(50) } else { rng.range(101, 125) };
+            let n = if j % 4 == 3 { [4100, 4300, 8200, 9000][((j / 4) % 4) as usize] + rng.below(50) } else { rng.range(101, 125) };
             let mut head: Vec<u32> = (0..n as u32).map(|i| 10 + i).collect();
             for t in 0..rng.range(1, 3) as u32 {
                 let at = rng.below(head.len());
